@@ -1469,7 +1469,32 @@ where
                 } else {
                     Cow::Owned(env::current_dir()?.join(dname))
                 };
-                helpers::normpath(&dname).into_owned()
+                // Like realpath(3) without -e: resolve the longest prefix that
+                // exists (symbolic links included), so that the name does not
+                // change once the rest has been created; what does not exist
+                // yet can only be cleaned lexically.
+                let comps: Vec<path::Component> = dname.components().collect();
+                let mut resolved: Option<PathBuf> = None;
+                let mut k = comps.len();
+                while k > 0 && resolved.is_none() {
+                    k -= 1;
+                    let prefix: PathBuf = comps[..k].iter().collect();
+                    if prefix.as_os_str().is_empty() {
+                        break;
+                    }
+                    match prefix.canonicalize() {
+                        Ok(p) => resolved = Some(p),
+                        Err(e) if e.kind() == io::ErrorKind::NotFound => {}
+                        Err(e) => return Err(e),
+                    }
+                }
+                match resolved {
+                    Some(mut p) => {
+                        p.extend(comps[k..].iter());
+                        helpers::normpath(&p).into_owned()
+                    }
+                    None => helpers::normpath(&dname).into_owned(),
+                }
             }
             Err(e) => return Err(e),
         };
